@@ -356,7 +356,7 @@ theorem C17_matches_total (fp : Para) (v path : Str) (hv : fp.get kFiles = some 
   simp [Lossless.paraMatches, Lossless.files, hv, anyMatch_ok _ path hvalid, Spec.paraMatchesB,
     Spec.patterns]
 
-/-- the lossy counterpart: one of the *stored* patterns (lossy.rs stores the lines of the field) -/
+/-- the lossy counterpart: one of the *stored* patterns (since 546a36f lossy.rs stores the white-space-separated patterns of the field, `deserialize_file_list`) -/
 theorem C17_matches_any_lossy (fp : Lossy.FilesParagraph) (path : Str)
     (hvalid : ∀ g ∈ fp.files, validEscapes g = true) (hp : '\n' ∉ path) :
     Lossy.paraMatches fp path = .ok true ↔ ∃ g ∈ fp.files, Matches g path := by
@@ -577,7 +577,7 @@ theorem C17_license (c : Doc) (path : Str) (fp : Para)
 def convF (p : Para) : Lossy.FilesParagraph where
   files := Lossy.deserializeFileList ((p.get kFiles).getD [])
   license := License.ofValue ((p.get kLicense).getD [])
-  copyright := splitOn '\n' ((p.get kCopyright).getD [])
+  copyright := Lossy.deserializeCopyrights ((p.get kCopyright).getD [])
   comment := p.get kComment
 
 /-- what `LicenseParagraph::from_paragraph` builds when it succeeds -/
